@@ -38,3 +38,27 @@ def wl_name(clsk):
         elif c == "," and depth == 1:
             return clsk[i + 1:j]
     return clsk[i + 1:]
+
+
+def split_targs(s):
+    """top-level template arguments of `Name<a, b<c, d>, e>` -> [a, b<c, d>, e]"""
+    i = s.find("<")
+    if i < 0:
+        return []
+    out, depth, cur = [], 0, ""
+    for c in s[i:]:
+        if c == "<":
+            depth += 1
+            if depth == 1:
+                continue
+        elif c == ">":
+            depth -= 1
+            if depth == 0:
+                out.append(cur.strip())
+                break
+        elif c == "," and depth == 1:
+            out.append(cur.strip())
+            cur = ""
+            continue
+        cur += c
+    return out
